@@ -223,6 +223,8 @@ func (d *Driver) Enabled(e *mc.Env, s *mc.State) []mc.Op {
 				}
 				add(opData{kind: "mintnew", ci: ci, by: o, to: -1, amt: 0}, fmt.Sprintf("mintnew(%s,%s>dflt,0)", cn, actors[o]))
 				add(opData{kind: "mintnew", ci: ci, by: stranger, to: -1, amt: 1}, fmt.Sprintf("mintnew(%s,%s>dflt,1)", cn, actors[stranger]))
+				// a non-owner who names the owner as recipient (the two addresses of the message swapped)
+				add(opData{kind: "mintnew", ci: ci, by: stranger, to: o, amt: 1}, fmt.Sprintf("mintnew(%s,%s>%s,1)", cn, actors[stranger], actors[o]))
 			}
 		} else {
 			// hand-over: the owner to each other actor, every non-owner to itself
@@ -235,11 +237,15 @@ func (d *Driver) Enabled(e *mc.Env, s *mc.State) []mc.Op {
 					}
 				} else {
 					add(opData{kind: "handover", ci: ci, by: a, to: a}, fmt.Sprintf("handover(%s,%s>%s)", cn, actors[a], actors[a]))
+					add(opData{kind: "handover", ci: ci, by: a, to: o}, fmt.Sprintf("handover(%s,%s>%s)", cn, actors[a], actors[o]))
 				}
 			}
 			if len(cl.tokens) < d.V.MaxTokens {
 				for a := range actors {
 					add(opData{kind: "mintnew", ci: ci, by: a, to: -1, amt: 1}, fmt.Sprintf("mintnew(%s,%s>dflt,1)", cn, actors[a]))
+					if a != o {
+						add(opData{kind: "mintnew", ci: ci, by: a, to: o, amt: 1}, fmt.Sprintf("mintnew(%s,%s>%s,1)", cn, actors[a], actors[o]))
+					}
 				}
 			}
 		}
@@ -272,6 +278,7 @@ func (d *Driver) Enabled(e *mc.Env, s *mc.State) []mc.Op {
 				}
 				add(opData{kind: "mint", ci: ci, ti: ti, by: o, to: -1, amt: 0}, fmt.Sprintf("mint(%s,%s>dflt,0)", tn, actors[o]))
 				add(opData{kind: "mint", ci: ci, ti: ti, by: stranger, to: -1, amt: 1}, fmt.Sprintf("mint(%s,%s>dflt,1)", tn, actors[stranger]))
+				add(opData{kind: "mint", ci: ci, ti: ti, by: stranger, to: o, amt: 1}, fmt.Sprintf("mint(%s,%s>%s,1)", tn, actors[stranger], actors[o]))
 				add(opData{kind: "edit", ci: ci, ti: ti, by: o}, fmt.Sprintf("edit(%s,%s)", tn, actors[o]))
 				nonHolder := false
 				for h := range actors {
@@ -306,6 +313,10 @@ func (d *Driver) Enabled(e *mc.Env, s *mc.State) []mc.Op {
 			} else {
 				for a := range actors {
 					add(opData{kind: "mint", ci: ci, ti: ti, by: a, to: -1, amt: 1}, fmt.Sprintf("mint(%s,%s>dflt,1)", tn, actors[a]))
+					if a != o {
+						// a non-owner who names the owner as recipient
+						add(opData{kind: "mint", ci: ci, ti: ti, by: a, to: o, amt: 1}, fmt.Sprintf("mint(%s,%s>%s,1)", tn, actors[a], actors[o]))
+					}
 				}
 				for a := range actors {
 					add(opData{kind: "edit", ci: ci, ti: ti, by: a}, fmt.Sprintf("edit(%s,%s)", tn, actors[a]))
